@@ -42,7 +42,7 @@ LegacyTrailingSlash(doc, req, obs) ==
 (* slashes other than the one the template has).  The answer is the correct one for "/b/".                     *)
 RootSlashed(req) == [req EXCEPT !.u.path = StripSlashes(req.u.path) \o <<"">>]
 LegacyRootTrailingSlash(doc, req, obs) ==
-   /\ obs.k = "route" /\ obs.path = "/" /\ obs.params = <<>>
+   /\ obs.k = "route" /\ obs.path = "/"            \* (obs.params may carry the variables of the matched server; the template has none)
    /\ req.u.path # RootSlashed(req).u.path
    /\ Failed(doc, RootSlashed(req), obs) = {}
 
